@@ -163,14 +163,14 @@ func genNodes(r *Rng, k int) []*graph.Node {
 	var ns []*graph.Node
 	for i := 0; i < k; i++ {
 		info, fl, cu := base, bf, bc
-		switch r.Intn(6) {
+		switch r.Intn(12) {
 		case 0: // exact duplicate of the base (call-tree style, F19)
-		case 1, 2:
+		case 1, 2, 3, 4, 5:
 			info = mutateInfo(r, base)
-		case 3:
+		case 6, 7:
 			info = mutateInfo(r, mutateInfo(r, base))
 			fl = c08Value(r)
-		case 4:
+		case 8, 9:
 			fl, cu = -bf, -bc
 			info = mutateInfo(r, base)
 		default:
@@ -222,7 +222,7 @@ func dumpTag(t *graph.Tag) Term { return L(S(t.Name), Z(t.Flat), Z(t.Cum)) }
 func c08Cmp(c *Ctx) {
 	r := c.R
 	// nodes
-	for n := c.Budget(1400, 40000); n > 0; n-- {
+	for n := c.Budget(1400, 25000); n > 0; n-- {
 		k := 2 + r.Intn(2)
 		ns := genNodes(r, k)
 		ord := nodeOrders[r.Intn(len(nodeOrders))]
@@ -263,7 +263,7 @@ func c08Cmp(c *Ctx) {
 		}
 	}
 	// edges: endpoints drawn from a small node set so that names collide
-	for n := c.Budget(700, 20000); n > 0; n-- {
+	for n := c.Budget(700, 10000); n > 0; n-- {
 		k := 2 + r.Intn(2)
 		pool := genNodes(r, 3)
 		var es []*graph.Edge
@@ -305,7 +305,7 @@ func c08Cmp(c *Ctx) {
 		}
 	}
 	// tags
-	for n := c.Budget(600, 20000); n > 0; n-- {
+	for n := c.Budget(600, 10000); n > 0; n-- {
 		k := 2 + r.Intn(2)
 		ts := genTags(r, k)
 		flat := r.Bool()
@@ -336,7 +336,7 @@ func c08Cmp(c *Ctx) {
 		}
 	}
 	// key functions
-	for n := c.Budget(500, 10000); n > 0; n-- {
+	for n := c.Budget(500, 5000); n > 0; n-- {
 		i := c08Info(r)
 		if r.Bool() {
 			i = mutateInfo(r, i)
@@ -528,7 +528,7 @@ func distinct(k int, f func() string) (n int, first string, hashes []string) {
 func c08Det(c *Ctx) {
 	r := c.R
 	reps := c.Budget(48, 64)
-	nprof := c.Budget(44, 1100)
+	nprof := c.Budget(44, 500)
 	unstable := map[string]int{}
 	addCase := func(gen string, p *profile.Profile, f c08Fmt, o c08Opts) {
 		nodes, cnt := c08FullNodes(p, f.f, o)
@@ -591,11 +591,16 @@ func c08Det(c *Ctx) {
 			Sample: []*profile.Sample{{Location: []*profile.Location{l1, lr}, Value: []int64{1}}, {Location: []*profile.Location{l2, lr}, Value: []int64{1}}}}
 		addCase("finding-F9", p, c08Fmt{"callgrind", report.Callgrind}, c08Opts{agg: 1})
 	}
+	// finding F25: the entropy score of node a takes two values depending on map order; b ties with
+	// the larger one, so the numbering of a and b in -dot follows the iteration order
+	if fp := f25Search(NewRng(7), 200000); fp.ok {
+		addCase("finding-F25", f25Profile(fp), c08Fmt{"dot", report.Dot}, c08Opts{})
+	}
 	c.Extra["det_repetitions"] = reps
 	c.Extra["det_unstable_by_format"] = unstable
 
 	// both serializations of the in-memory profile (labels live in Go maps)
-	for i := c.Budget(60, 2000); i > 0; i-- {
+	for i := c.Budget(60, 1000); i > 0; i-- {
 		k := DefaultKnobs()
 		k.Meta = r.P(1, 3)
 		p := c08Valid(GenProfile(r, k))
@@ -629,7 +634,7 @@ func c08Det(c *Ctx) {
 func c08Ent(c *Ctx) {
 	r := c.R
 	varying := 0
-	for i := c.Budget(150, 5000); i > 0; i-- {
+	for i := c.Budget(150, 3000); i > 0; i-- {
 		n := newNode(graph.NodeInfo{Name: "n"}, int64(r.Intn(50)), 0)
 		var ws []Term
 		ne := 1 + r.Intn(6)
